@@ -133,6 +133,13 @@ func TestC02_linesweep(t *testing.T) {
 							continue
 						}
 						c := c02Case{Leg: "linesweep", Extractor: e.Name, Path: f.Paths[0], Base: f.Rel, Muts: []Mut{tg.wrap(Mut{Op: op, A: ln})}}
+						// when Extract fails on the result, a real scan with two healthy neighbours
+						// decides containment, under a scan option set that rotates with the case
+						c.Contain = true
+						pickHealthy(&c, e, idx)
+						if c.Contain {
+							c.ScanOpts = scanOptChoices[idx%len(scanOptChoices)]
+						}
 						o, err := ev.Safe(propC02)(c)
 						o.Classes = append(o.Classes, "linesweep")
 						ran++
